@@ -571,6 +571,20 @@ func storeReadBack(r *core.Run) {
 			typ  string
 		}
 		clients := []clientSpec{{core.GenChainName(rng), exported.Tendermint}, {core.GenChainName(rng), exported.BSC}, {core.GenChainName(rng), exported.ETH}}
+		// chain names are case sensitive: a second Tendermint client whose name differs from the first one's only in
+		// letter case (or, for a name without letters, by one appended letter) has key ranges of its own
+		twin := strings.ToUpper(clients[0].name)
+		if twin == clients[0].name {
+			twin = strings.ToLower(clients[0].name)
+		}
+		if twin == clients[0].name {
+			twin = clients[0].name + "A"
+			clients[0].name += "a"
+		}
+		if host.ClientIdentifierValidator(twin) == nil && host.ClientIdentifierValidator(clients[0].name) == nil {
+			clients = append(clients, clientSpec{twin, exported.Tendermint})
+		}
+		written := map[string]map[string]clienttypes.Height{}
 		cons := tmtypes.NewConsensusState(time.Unix(1700000000, 0).UTC(), []byte("root-bytes-0123456789abcdefghijkl"), make([]byte, 32))
 		for _, c := range clients {
 			heights := map[string]clienttypes.Height{}
@@ -599,6 +613,7 @@ func storeReadBack(r *core.Run) {
 				}
 				r.Eval(fmt.Sprintf("cons/%s/%s", c.typ, h), true)
 			}
+			written[c.name] = heights
 			// keeper-level iterator
 			got := map[string]bool{}
 			err, _ := core.Catch(func() error {
@@ -705,6 +720,32 @@ func storeReadBack(r *core.Run) {
 					return nil
 				})
 				reportHeights(r, cid, "eth.IterateConsensusStateAscending", heights, got, err)
+			}
+		}
+		// the grouped view (what genesis export is made from): every chain with exactly its own heights
+		var grouped clienttypes.ClientsConsensusStates
+		if err, _ := core.Catch(func() error { grouped = ck.GetAllConsensusStates(ctx); return nil }); err != nil {
+			r.Violation(cid, "readback/GetAllConsensusStates/panic", map[string]interface{}{"err": err.Error()})
+		}
+		seenChain := map[string]bool{}
+		for _, g := range grouped {
+			w, mine := written[g.ChainName]
+			if !mine {
+				continue
+			}
+			seenChain[g.ChainName] = true
+			got := map[string]bool{}
+			for _, cs := range g.ConsensusStates {
+				got[cs.Height.String()] = true
+			}
+			if len(got) != len(w) {
+				r.Violation(cid, "readback/GetAllConsensusStates/chain-read-back-with-other-heights", map[string]interface{}{"chain": g.ChainName, "written": len(w), "read": len(got)})
+			}
+			reportHeights(r, cid, "GetAllConsensusStates", w, got, nil)
+		}
+		for name := range written {
+			if !seenChain[name] {
+				r.Violation(cid, "readback/GetAllConsensusStates/chain-missing", map[string]interface{}{"chain": name})
 			}
 		}
 		// client iterator
